@@ -22,6 +22,7 @@ import Knut.Driver.GoSemSyn
 import Knut.Driver.C09Cmd
 import Knut.Driver.C02
 import Knut.Driver.GoSemFmt
+import Knut.Driver.GoSemBean
 /-! Line-protocol driver over the executable model: one request per line (`op field*`), one answer line.
 Each property contributes a handler module `Knut/Driver/<X>.lean`; add it to `handlers`. -/
 open Knut Knut.Wire
@@ -50,7 +51,8 @@ def handlers : List (List String → Option String) := [
   Knut.Driver.GoSemSyn.handle,
   Knut.Driver.C09Cmd.handle,
   Knut.Driver.C02.handle,
-  Knut.Driver.GoSemFmt.handle
+  Knut.Driver.GoSemFmt.handle,
+  Knut.Driver.GoSemBean.handle
 ]
 
 def handle (fields : List String) : String :=
